@@ -47,7 +47,8 @@ def _reader(case, d, A):
     if b == 'flat':
         paths, off = [], 0
         for i, l in enumerate(case['parts']):
-            p = d / ('f%d.bin' % i)
+            # file names whose sorted order is not the order in which the files are given
+            p = d / {'rev': 'f%02d.bin' % (50 - i), 'nat': 'seg_%d.bin' % (9 + i)}.get(case.get('names'), 'f%d.bin' % i)
             A[off:off + l].tofile(p)
             off += l
             paths.append(p)
@@ -109,6 +110,12 @@ def impl(case):
         return res
     dur, nch, n = case['dur'], case['nch'], case['n']
     A = _A(dur, nch, case['dtype'], case.get('bias', 0))
+    if case.get('nanlast') and A.dtype.kind == 'f':
+        # non-finite samples (blanked artefacts, saturation) on the LAST channel, which no channel list of the case
+        # names: it is only touched through -1 entries, which must come out as zeros
+        A[0::3, -1] = np.nan
+        A[1::3, -1] = np.inf
+        A[2::3, -1] = -np.inf
     spikes = np.array(case['spikes'], dtype=case.get('sdtype', 'int64'))
     with C.scratch_dir() as d:
         rd = None
@@ -322,7 +329,9 @@ def tally(rep, case, impl_res, ans):
             st = set(impl_res['ok']['store_ids'])
             rep.count('store_request:%s' % ('all_stored' if all(q in st for q in case['spike_ids']) else 'some_unstored'))
         return
-    rep.count('backend:' + case['backend'])
+    rep.count('backend:' + case['backend'] + ('(file names not in sorted order)' if case.get('names') in ('rev', 'nat') and len(case.get('parts', [])) > 1 else ''))
+    if case.get('nanlast'):
+        rep.count('non-finite samples on a channel reached only through -1')
     rep.count('sdtype:' + case.get('sdtype', 'int64'))
     rep.count('dtype:' + case['dtype'])
     rep.count('window:%s' % ('odd' if case['n'] % 2 else 'even'))
@@ -391,6 +400,7 @@ def _backend(rng, dur, dtype, k):
         cuts = sorted(rng.sample(range(1, dur), nparts - 1)) if nparts > 1 else []
         bounds = [0] + cuts + [dur]
         d['parts'] = [b_ - a_ for a_, b_ in zip(bounds, bounds[1:])]
+        d['names'] = ['idx', 'rev', 'nat'][(k // 3) % 3]
     if b == 'cbin':
         d['bs'] = 1 + k % 3
     if int(round(600.0 * (d['cs'] / 600.))) != d['cs']:
@@ -418,6 +428,9 @@ def gen(tier, rng):
                 c.update(_backend(rng, dur, c['dtype'], k))
                 if k % 3 == 0:
                     c['backend'] = 'ndarray'
+                if c['dtype'] != 'int16' and nch >= 2 and -1 in ch and k % 2:
+                    c['nanlast'] = True
+                    c['ch'] = [-1 if x == nch - 1 else x for x in ch]
                 yield c
     # 2. export + lookup: sorted spike vectors incl. ties and all boundaries
     for _ in range(3000 if q else 30000):
@@ -449,6 +462,10 @@ def gen(tier, rng):
                  nloc=nloc, sdtype=sdts[k % 4], dtype=dtype, factor=[1, 2, 1.0, 0.5, 2.5][k % 5],
                  chkind=['array', 'list'][(k // 2) % 2], cache=bool((k // 3) % 2))
         c.update(be)
+        if dtype != 'int16' and nch >= 2 and k % 4 == 3:
+            # non-finite samples on the last channel; channel lists name it only through -1
+            c['nanlast'] = True
+            c['chans'] = [[-1 if x == nch - 1 else x for x in row] for row in chans]
         c['prev'] = ['none', 'export', 'none', 'bytes', 'export'][k % 5 if k % 7 else 1]
         if k % 6 == 2:
             c['nkind'] = 'np'
